@@ -64,6 +64,7 @@ func BuiltIn() []Operator {
 // e.g. 如果定义 & 需要放在  && 之后
 // 使用 ops 之前, 需要先排下序
 func Sort(ops []Operator) []Operator {
+	verifSortHook(ops)
 	sort.SliceStable(ops, func(i, j int) bool {
 		x := ops[i].Kind
 		y := ops[j].Kind
